@@ -77,3 +77,8 @@ Definition enc_setres (r : setres) : list Z :=
 Definition dg64 (k : Z) (l : list Z) : Z :=
   fold_left (fun h v => Z.land (Z.shiftl h k + h + v + 1) 18446744073709551615) l 7.
 Definition dg (l : list Z) : Z * Z := (dg64 5 l, dg64 7 l).
+
+(* several sessions on one Param object: by C04_sessions_independent every session of [mrun] is a run from
+   [init] of the table connected in it, so the expected trace is the per-session traces one after the other *)
+Definition sess_trace (l : list (config * list (list xevent))) : list Z :=
+  flat_map (fun cg => case_trace (fst cg) (snd cg)) l.
